@@ -536,7 +536,7 @@ def shrink(plan, target, repo, budget=120, known=None, log=None, seconds=90):
     # 3. faults and knobs
     for sidx, seg in enumerate(best["segments"]):
         for oidx, op in enumerate(seg["ops"]):
-            for key in ("fault", "stale"):
+            for key in ("fault", "stale", "interrupt"):
                 if op.get(key) is not None:
                     cand = copy.deepcopy(best)
                     cand["segments"][sidx]["ops"][oidx][key] = None
